@@ -752,3 +752,38 @@ func (c *Connector) RestoreMailboxes(snap map[imap.MailboxID][]string) {
 		c.Mailboxes[id] = &Mbox{ID: id, Name: append([]string{}, name...)}
 	}
 }
+
+// RemoteState is a copy of the remote's mailboxes and messages.
+type RemoteState struct {
+	mailboxes map[imap.MailboxID][]string
+	messages  map[imap.MessageID]*Msg
+}
+
+// SnapshotAll / RestoreAll let a harness undo everything the remote was told by a command the
+// server then refused.
+func (c *Connector) SnapshotAll() *RemoteState {
+	st := &RemoteState{mailboxes: c.MailboxNames(), messages: map[imap.MessageID]*Msg{}}
+
+	c.mu.Lock()
+	defer c.mu.Unlock()
+
+	for id, m := range c.Messages {
+		cp := &Msg{ID: m.ID, Literal: m.Literal, Flags: m.Flags.Clone(), Date: m.Date, Mailboxes: map[imap.MailboxID]bool{}}
+		for mb := range m.Mailboxes {
+			cp.Mailboxes[mb] = true
+		}
+
+		st.messages[id] = cp
+	}
+
+	return st
+}
+
+func (c *Connector) RestoreAll(st *RemoteState) {
+	c.RestoreMailboxes(st.mailboxes)
+
+	c.mu.Lock()
+	defer c.mu.Unlock()
+
+	c.Messages = st.messages
+}
